@@ -160,7 +160,47 @@ func checkC15(c c15Case) error {
 	return nil
 }
 
-func init() { reg("C15", "quoted", checkC15) }
+// c15Dir creates the adversarial working directory and enters it.
+func c15Dir(name string) (leave func(), err error) {
+	cwd := filepath.Join(outDir(), name)
+	os.MkdirAll(filepath.Join(cwd, "d"), 0o755)
+	for _, f := range []string{"a", "b", "ab", "*", "?", "[", "a b", "é", "~", "-", ".", "d/a", "$a", `\`, "a\\"} {
+		os.WriteFile(filepath.Join(cwd, f), nil, 0o644)
+	}
+	wd, _ := os.Getwd()
+	if err := os.Chdir(cwd); err != nil {
+		return nil, err
+	}
+	return func() { os.Chdir(wd); os.RemoveAll(cwd) }, nil
+}
+
+// c15WithFile runs the case with a file named like s present.
+func c15WithFile(c c15Case) error {
+	made := ""
+	if c.S != "" && c.S != "." && c.S != ".." && !strings.ContainsAny(c.S, "/\x00") && len(c.S) < 100 {
+		if _, err := os.Lstat(c.S); err != nil {
+			if os.WriteFile(c.S, nil, 0o644) == nil {
+				made = c.S
+			}
+		}
+	}
+	err := checkC15(c)
+	if made != "" {
+		os.Remove(made)
+	}
+	return err
+}
+
+func init() {
+	reg("C15", "quoted", func(c c15Case) error {
+		leave, err := c15Dir("c15-replay")
+		if err != nil {
+			return fmt.Errorf("replay file: cannot enter scratch directory: %v", err)
+		}
+		defer leave()
+		return c15WithFile(c)
+	})
+}
 
 var c15Modes = []uint{0, uint(interp.Arith), uint(interp.Assign), uint(interp.Literal), uint(interp.Pattern), uint(interp.Quote), uint(interp.Assign | interp.Quote)}
 
@@ -171,36 +211,18 @@ func TestC15(t *testing.T) {
 	defer st.Write()
 	sh, nsh := shard()
 
-	// adversarial working directory: files named like glob expansions
-	cwd := filepath.Join(outDir(), fmt.Sprintf("c15-cwd-%d", sh))
-	os.MkdirAll(filepath.Join(cwd, "d"), 0o755)
-	for _, f := range []string{"a", "b", "ab", "*", "?", "[", "a b", "é", "~", "-", ".", "d/a", "$a", `\`, "a\\"} {
-		os.WriteFile(filepath.Join(cwd, f), nil, 0o644)
-	}
-	wd, _ := os.Getwd()
-	if err := os.Chdir(cwd); err != nil {
+	leave, err := c15Dir(fmt.Sprintf("c15-cwd-%d", sh))
+	if err != nil {
 		t.Fatalf("INFRA: %v", err)
 	}
-	defer func() { os.Chdir(wd); os.RemoveAll(cwd) }()
+	defer leave()
 
 	special := func(s string) bool { return strings.ContainsAny(s, "'\"\\$`*?[]~#&;|<>(){}!= \t\n") }
 	run := func(tt fataler, c c15Case, rapidCase bool) {
 		if _, ok := c15Quote(c.S, c.Quote); !ok {
 			return
 		}
-		// a file named like s itself
-		made := ""
-		if c.S != "" && c.S != "." && c.S != ".." && !strings.ContainsAny(c.S, "/\x00") && len(c.S) < 100 {
-			if _, err := os.Lstat(c.S); err != nil {
-				if os.WriteFile(c.S, nil, 0o644) == nil {
-					made = c.S
-				}
-			}
-		}
-		err := checkC15(c)
-		if made != "" {
-			os.Remove(made)
-		}
+		err := c15WithFile(c)
 		if err != nil {
 			fail(tt, "C15", "quoted", c, "%v", err)
 		}
